@@ -14,6 +14,7 @@ import (
 	"sort"
 	"strconv"
 	"strings"
+	"testing/synctest"
 
 	"verif.local/mc/mc"
 )
@@ -62,6 +63,7 @@ type Check struct {
 	replay   *Replay
 	replayed bool
 	worker   string // non-empty: this process is a worker for that part
+	sched    bool   // the part being explored needs a synctest bubble
 	internal []string
 	knownHit map[string]string
 }
@@ -237,12 +239,32 @@ func (k *Check) ExploreProc(name string, cfg mc.Config, param any, body func(*mc
 	if procs == 0 {
 		procs = k.Workers
 	}
-	spec := mc.WorkerSpec{Args: []string{k.ID, k.Tier, "--worker", name}, Procs: procs, Env: []string{"GOMAXPROCS=1"}}
+	spec := mc.WorkerSpec{Args: []string{k.ID, k.Tier, "--worker", name}, Procs: procs, Env: []string{"GOMAXPROCS=1"}, RemoteFrontier: k.sched}
 	r := mc.ExploreSharded(name, cfg, spec, param, body)
 	k.parts = append(k.parts, r)
 	fmt.Fprintf(os.Stderr, "[%s] %-40s execs=%-9d points=%-10d outcomes=%-7d nontrivial=%-7d states=%-7d viol=%d known=%d exhaustive=%v %.1fs\n",
 		k.ID, name, r.Execs, r.Points, r.Outcomes, r.Nontrivial, r.States, len(r.Violations), len(r.Known), r.Exhaustive, r.WallS)
 	return r
+}
+
+// ExploreSched is ExploreProc for bodies that run the code under test under the cooperative
+// scheduler: every process that executes the body does so inside one testing/synctest bubble
+// and never leaves it (the coordinator expands the tree through a worker).
+func (k *Check) ExploreSched(name string, cfg mc.Config, param any, body func(*mc.Ctx)) *mc.Result {
+	k.sched = true
+	defer func() { k.sched = false }()
+	if k.replay != nil {
+		if k.replay.Part != name {
+			return &mc.Result{Name: name, Notes: map[string]int64{}}
+		}
+		synctest.Run(func() { k.Explore(name, cfg, param, body) }) // Explore exits the process
+		return nil
+	}
+	if k.worker == name {
+		cfg.IsKnown = func(sig string) bool { return k.matchKnown(sig) != nil }
+		synctest.Run(func() { mc.ServeWorker(name, cfg, param, body) })
+	}
+	return k.ExploreProc(name, cfg, param, body)
 }
 
 // AddResult lets a harness with its own enumeration loop contribute a part.
